@@ -44,15 +44,30 @@ JOIN_KNOBS = {'n_min': 2, 'n_max': 3, 'max_nodes': 2,
 JOIN_COUNT = {'quick': 160, 'thorough': 2500}
 
 
+# and a family where one more process is requested for a non-distributed application that is being started on the
+# instance / node chosen for its whole sequence (loads reserved for the later sequence levels, program identifiers
+# rule replaced by the application's)
+ADDED_KNOBS = {'n_min': 2, 'n_max': 4, 'max_nodes': 2,
+               'apps': {'n_apps': (1, 3), 'n_progs': (2, 4), 'seq_max': 3, 'loads': (20, 45), 'startsecs': (2, 8),
+                        'per_instance_diff': 0.0, 'managed_p': 1.0, 'identifiers_p': 0.5, 'autorestart': ('false',),
+                        'distribution': None, 'restricted_p': 0.8},
+               'behaviours': ['normal'], 'actions': ['start_application_then_process'], 'n_actions': [1, 2, 3],
+               'gaps': [12.0, 30.0], 'disable_p': 0.0, 'early_p': 0.0}
+ADDED_COUNT = {'quick': 160, 'thorough': 3000}
+
+
 def plan(tier, seed):
     return [{'seed': seed * 1000003 + i} for i in range(COUNT[tier])] + \
-        [{'seed': seed * 1000003 + 800000 + i, 'family': 'disabled-during-join'} for i in range(JOIN_COUNT[tier])]
+        [{'seed': seed * 1000003 + 800000 + i, 'family': 'disabled-during-join'} for i in range(JOIN_COUNT[tier])] + \
+        [{'seed': seed * 1000003 + 700000 + i, 'family': 'process-added-to-a-non-distributed-job'}
+         for i in range(ADDED_COUNT[tier])]
 
 
 def run_case(case):
     tracker = Tracker()
     mon = EligibilityMonitor(tracker)
-    run = Run(case, JOIN_KNOBS if case.get('family') == 'disabled-during-join' else KNOBS, [tracker, mon])
+    run = Run(case, {'disabled-during-join': JOIN_KNOBS, 'process-added-to-a-non-distributed-job': ADDED_KNOBS}.get(
+        case.get('family'), KNOBS), [tracker, mon])
     violations = run.execute()
     nontrivial = mon.counters.get('requests_near_cap', 0) + mon.counters.get('requests_with_pending_load', 0) > 0
     return {'violations': violations, 'counters': run.counters,
